@@ -5,20 +5,20 @@ OBLIGATIONS = [
        what='Polygon::bounding_box / Label::bounding_box == min/max over all vertices x ALL repetition offsets; empty polygon gives the inverted box',
        bound='polygons of 0 and 2 vertices, one label; every repetition kind (shapes up to 2x3 / 3 entries); coordinates and vectors in -3..3',
        variants=[dict(ELEM=e, NV=nv, **s) for (e, nv) in ((0, 2), (0, 0), (1, 1)) for s in SHAPES], unwind=12, timeout=200, nvec=25),
-    Ob('reference_bounding_box', 'C09/bbox_ref.c', ['_ZNK5gdstk9Reference12bounding_boxERNS_4Vec2ES2_RNS_3MapINS_12GeometryInfoEEE', '_ZNK5gdstk9Reference12bounding_boxERNS_4Vec2ES2_'],
-       stubs=['_ZN5gdstk11convex_hullENS_5ArrayINS_4Vec2EEERS2_', '_ZN5gdstk24is_multiple_of_pi_over_2EdRl'], model='ie', defines={'REAL_TOL': 1, 'IE_BITS': 14, 'OP': 0},
+    Ob('reference_bounding_box', 'C09/bbox_ref.c', ['_ZNK5gdstk9Reference12bounding_boxERNS_4Vec2ES2_RNS_3MapINS_12GeometryInfoEEE', '_ZNK5gdstk9Reference12bounding_boxERNS_4Vec2ES2_', '_ZNK5gdstk4Cell12bounding_boxERNS_3MapINS_12GeometryInfoEEE'],
+       stubs=['_ZN5gdstk11convex_hullENS_5ArrayINS_4Vec2EEERS2_', '_ZN5gdstk24is_multiple_of_pi_over_2EdRl'], model='ie', defines={'REAL_TOL': 1, 'IE_BITS': 14, 'OP': 0, 'PRE': 0},
        what='Reference::bounding_box (two-level hierarchy, real Map<GeometryInfo> cache) == min/max over the magnified, reflected, rotated, translated and fully repeated child geometry',
        bound='child: 2-vertex polygon + label, coordinates -2..2; magnification -2..2, both reflections, rotation 0 (corner shortcut) or arbitrary with free cos/sin (hull branch, qhull = identity hull); reference without repetition (repetition x reference is covered at element level and by C11 extrema)',
-       variants=[dict(REFL=f, ROT0=z, KIND=0, A=0, B=0) for f in (0, 1) for z in (0, 1)],
-       unwind=7, timeout=400, mem_gb=10, retry_defines=['-DAXIS_ONLY'], nvec=25),
-    Ob('bounding_box_cache_agreement', 'C09/bbox_ref.c', ['_ZNK5gdstk9Reference12bounding_boxERNS_4Vec2ES2_RNS_3MapINS_12GeometryInfoEEE', '_ZNK5gdstk9Reference12bounding_boxERNS_4Vec2ES2_'],
-       stubs=['_ZN5gdstk11convex_hullENS_5ArrayINS_4Vec2EEERS2_', '_ZN5gdstk24is_multiple_of_pi_over_2EdRl'], model='ie', defines={'REAL_TOL': 1, 'IE_BITS': 14, 'OP': 1},
+       variants=[dict(REFL=f, ROT0=z, KIND=0, A=0, B=0) for f in (0, 1) for z in (0, 1)] + [dict(REFL=0, ROT0=0, KIND=0, A=0, B=0, PRE=1)],
+       unwind=7, timeout=500, mem_gb=10, retry_defines=['-DAXIS_ONLY'], nvec=25),
+    Ob('bounding_box_cache_agreement', 'C09/bbox_ref.c', ['_ZNK5gdstk9Reference12bounding_boxERNS_4Vec2ES2_RNS_3MapINS_12GeometryInfoEEE', '_ZNK5gdstk9Reference12bounding_boxERNS_4Vec2ES2_', '_ZNK5gdstk4Cell12bounding_boxERNS_3MapINS_12GeometryInfoEEE'],
+       stubs=['_ZN5gdstk11convex_hullENS_5ArrayINS_4Vec2EEERS2_', '_ZN5gdstk24is_multiple_of_pi_over_2EdRl'], model='ie', defines={'REAL_TOL': 1, 'IE_BITS': 14, 'OP': 1, 'PRE': 0},
        what='a second query through the filled cache and the cache-free entry point return the same box as the first query',
        bound='same hierarchy; rotation 0 and free rotation, no repetition',
        variants=[dict(REFL=1, ROT0=0, KIND=0, A=0, B=0)],
        unwind=10, timeout=600, mem_gb=12, retry_defines=['-DAXIS_ONLY'], nvec=25),
-    Ob('bounding_box_cache_agreement_rot0', 'C09/bbox_ref.c', ['_ZNK5gdstk9Reference12bounding_boxERNS_4Vec2ES2_RNS_3MapINS_12GeometryInfoEEE', '_ZNK5gdstk9Reference12bounding_boxERNS_4Vec2ES2_'],
-       stubs=['_ZN5gdstk11convex_hullENS_5ArrayINS_4Vec2EEERS2_', '_ZN5gdstk24is_multiple_of_pi_over_2EdRl'], model='ie', defines={'REAL_TOL': 1, 'IE_BITS': 14, 'OP': 1},
+    Ob('bounding_box_cache_agreement_rot0', 'C09/bbox_ref.c', ['_ZNK5gdstk9Reference12bounding_boxERNS_4Vec2ES2_RNS_3MapINS_12GeometryInfoEEE', '_ZNK5gdstk9Reference12bounding_boxERNS_4Vec2ES2_', '_ZNK5gdstk4Cell12bounding_boxERNS_3MapINS_12GeometryInfoEEE'],
+       stubs=['_ZN5gdstk11convex_hullENS_5ArrayINS_4Vec2EEERS2_', '_ZN5gdstk24is_multiple_of_pi_over_2EdRl'], model='ie', defines={'REAL_TOL': 1, 'IE_BITS': 14, 'OP': 1, 'PRE': 0},
        what='cache agreement on the corner-shortcut branch', bound='rotation 0, no repetition', variants=[dict(REFL=0, ROT0=1, KIND=0, A=0, B=0)],
        unwind=10, timeout=1500, mem_gb=14, nvec=25, tier='thorough'),
     Ob('reference_hull_points', 'C09/hull_rep.c', ['_ZNK5gdstk9Reference20repeat_and_transformERNS_5ArrayINS_4Vec2EEE'], model='ie', defines={'REAL_TOL': 1, 'IE_BITS': 14},
